@@ -69,6 +69,11 @@ def cases(tier):
                     yield {'kind': 'schemes', 'dims': list(dims), 'ro': ro, 'fam': fam, 'rx': rx, 'steps': 'vary3', 'h': 0.1}
     for cplx in (False, True):
         yield {'kind': 'bigrank', 'dims': [56, 56], 'c': cplx}
+    # unbalanced mode sizes with the rank cap set to the largest admissible TT rank: every state fits, so nothing may be lost
+    for dims in ([8, 2], [2, 8], [16, 2, 2], [2, 2, 16]):
+        for ro in (2, 3):
+            for cplx in (False, True):
+                yield {'kind': 'tightcap', 'dims': dims, 'ro': ro, 'c': cplx}
     for dims in ([2, 2], [3, 2], [2, 2, 2]):
         for sm in ('two_step_Euler', 'trapezoidal_rule'):
             for solver in ('solve', 'lu'):
@@ -121,7 +126,40 @@ def run_case(case, seed):
             return run_schemes(case, r, rng)
         if case['kind'] == 'bigrank':
             return run_bigrank(case, r, rng)
+        if case['kind'] == 'tightcap':
+            return run_tightcap(case, r, rng)
         return run_adaptive(case, r, rng)
+
+
+def run_tightcap(case, r, rng):
+    from scikit_tt.solvers import ode
+    dims, ro, c = case['dims'], case['ro'], case['c']
+    d = len(dims); n = int(np.prod(dims))
+    r.nontrivial = True
+    op = make_op(rng, dims, ro, 'complex' if c else 'real')
+    A = mat(op)
+    cap = int(max(max_ranks(dims)))
+    x0t = tt_from(rand_cores(rng, dims, [1] * d, max_ranks(dims), c))
+    x0 = vec(x0t)
+    I = np.eye(n)
+    steps = [0.1, 0.2, 0.05]
+    want = [x0]
+    for hk in steps:
+        want.append((I + hk * A) @ want[-1])
+    with r.op('explicit_euler:tight-cap:call'):
+        sol = ode.explicit_euler(op, x0t, list(steps), threshold=0, max_rank=cap, normalize=0, progress=False)
+        compare_traj(r, 'explicit_euler:tight-cap', sol, want, x0t, dims)
+    h = 0.1
+    S = sinh_series(A, h, 1)
+    prev = x0 - sinh_series(A, h / 2, 1) @ ((I - 0.5 * h * A) @ x0)
+    want = [x0]
+    for k in range(3):
+        p = prev if k == 0 else want[k - 1]
+        want.append(p + S @ want[k])
+    with r.op('hod:tight-cap:call'):
+        sol = ode.hod(op, x0t, h, 3, order=2, threshold=0, max_rank=cap, normalize=0, progress=False)
+        compare_traj(r, 'hod:tight-cap', sol, want, x0t, dims, 1e-8)
+    return r
 
 
 def run_bigrank(case, r, rng):
